@@ -474,4 +474,52 @@ def summaries(repo, outdir):
     old = open(path).read() if os.path.exists(path) else None
     if old != text:
         open(path, 'w').write(text)
-    return {'alloc_constructs': alloc, 'shared_items': shared}
+    return {'alloc_constructs': alloc, 'shared_items': shared, 'vec_forwarding': vec_forwarding(repo)}
+
+
+def vec_forwarding(repo):
+    """implement_resampler!: every method of the blanket impl must be the single forwarding call."""
+    import rs2v
+    src = rs2v.strip_comments(open(os.path.join(repo, 'src', 'lib.rs')).read())
+    m = re.search(r'impl<T,\s*U>\s*\$trait_name<T>\s*for\s*U', src)
+    if not m:
+        return {'ok': False, 'problems': ['blanket impl of the wrapper trait not found'], 'methods': []}
+    ob = src.index('{', m.end())
+    cb = rs2v.match_brace(src, ob)
+    body = src[ob + 1:cb]
+    problems, methods = [], []
+    for fm in re.finditer(r'\bfn\s+([a-z_]+)\s*\(', body):
+        name = fm.group(1)
+        # parameters
+        i = fm.end()
+        depth = 1
+        while depth:
+            if body[i] == '(':
+                depth += 1
+            elif body[i] == ')':
+                depth -= 1
+            i += 1
+        params = body[fm.end():i - 1]
+        names = []
+        for p in params.split(','):
+            p = p.strip()
+            if not p or p in ('&self', '&mut self', 'self'):
+                continue
+            names.append(p.split(':')[0].strip())
+        fb = body.index('{', i)
+        fe = rs2v.match_brace(body, fb)
+        text = re.sub(r'\s+', '', body[fb + 1:fe])
+        want = 'rubato::Resampler::%s(self,%s)' % (name, ','.join(names)) if names else 'rubato::Resampler::%s(self)' % name
+        alt = want.replace('wave_in,', 'wave_in.map(AsRef::as_ref),', 1)
+        text = text.rstrip(',')
+        text2 = re.sub(r',\)$', ')', text)
+        methods.append(name)
+        if text2 not in (want, alt):
+            problems.append('%s: body is %r, expected %r' % (name, text2[:120], want))
+    required = ['process', 'process_into_buffer', 'process_partial_into_buffer', 'process_partial', 'input_buffer_allocate',
+                'input_frames_max', 'input_frames_next', 'nbr_channels', 'output_buffer_allocate', 'output_frames_max',
+                'output_frames_next', 'output_delay', 'set_resample_ratio', 'set_resample_ratio_relative']
+    for r in required:
+        if r not in methods:
+            problems.append('method %s missing from the blanket impl' % r)
+    return {'ok': not problems, 'problems': problems, 'methods': methods}
